@@ -577,4 +577,24 @@ theorem parseIsotimeEntry_eq (s : Bytes) :
       cases tz <;> simp [compsOf, BytesPy.lset, BytesPy.timeStar] <;> split <;> simp_all
     · cases tz <;> simp [h24, compsOf, BytesPy.timeStar] <;> split <;> simp_all
 
+/-- the model's input kinds as values of the translated code -/
+def toVal : Iso.PyInput → BytesPy.PyVal
+  | .str c => .str c
+  | .bytes b => .bytes b
+  | .streamStr c => .streamStr c
+  | .streamBytes b => .streamBytes b
+
+theorem takesAscii_eq {α} (f : Bytes → Py.R α) (i : Iso.PyInput) :
+    Gen.takesAscii f (toVal i) = Iso.takesAscii f i := by
+  cases i with
+  | str c =>
+    simp only [Gen.takesAscii, toVal, BytesPy.readAll, BytesPy.isText, BytesPy.encodeAscii, Iso.takesAscii, if_true]
+    by_cases h : c.any (fun c => decide (c ≥ 128)) = true <;> simp [h, BytesPy.tryExcept, Except.bind, BytesPy.asBytes]
+  | bytes b => simp [Gen.takesAscii, toVal, BytesPy.readAll, BytesPy.isText, Iso.takesAscii, Except.bind, BytesPy.asBytes]
+  | streamStr c =>
+    simp only [Gen.takesAscii, toVal, BytesPy.readAll, BytesPy.isText, BytesPy.encodeAscii, Iso.takesAscii, if_true]
+    by_cases h : c.any (fun c => decide (c ≥ 128)) = true <;> simp [h, BytesPy.tryExcept, Except.bind, BytesPy.asBytes]
+  | streamBytes b =>
+    simp [Gen.takesAscii, toVal, BytesPy.readAll, BytesPy.isText, Iso.takesAscii, Except.bind, BytesPy.asBytes]
+
 end IsoGen
